@@ -25,9 +25,9 @@ import (
 )
 
 const (
-	readWait  = 30 * time.Second       // fault-free reads: everything in flight arrives within milliseconds
-	extraWait = 20 * time.Millisecond  // the read that must find nothing more
-	faultWait = 2 * time.Second        // reads on damaged streams
+	readWait  = 30 * time.Second      // fault-free reads: everything in flight arrives within milliseconds
+	extraWait = 20 * time.Millisecond // the read that must find nothing more
+	faultWait = 2 * time.Second       // reads on damaged streams
 	maxReads  = 200000
 	readAhead = 64 * 1024 // what a reader may have consumed beyond the byte that exceeds a limit
 	allocCap  = 24 << 20
@@ -392,6 +392,7 @@ func (h *harness) writer(d *dirState, ep *endpoint) {
 		if f.Kind == "fin" || f.Kind == "rst" || f.Kind == "flip" {
 			for i := 0; i < n; i++ {
 				d.targets = append(d.targets, pickOffset(d.lay, (f.Cls+i)%8, core.H(f.Sel, "target", uint64(i))))
+				w.Fault(fmt.Sprintf("c04.%s.offset_class_%d", f.Kind, (f.Cls+i)%8))
 			}
 			sort.Ints(d.targets)
 		}
@@ -669,26 +670,28 @@ func (h *harness) readOver(d *dirState, ep *endpoint, rd *conn.Conn) {
 	used := d.consumed - c0
 	alloc := m1.TotalAlloc - m0.TotalAlloc
 	desc := fmt.Sprintf("carrier %s %s %s (n=%d res=%v cl=%q): element of %d bytes, limit exceeded at byte %d", sc.Carrier, d.name, o.Kind, o.N, o.Res, o.CL, len(d.over.plain), d.over.limitAt)
-	switch {
-	case err == nil:
+	if err == nil {
 		d.overOutcome = "accepted"
 		w.Fail("c04/overlimit accepted", "%s: Read returned an element instead of an error: %s", desc, describe(v))
 		return
-	case isTimeout(err):
+	}
+	if alloc > allocCap {
+		d.overOutcome = "memory"
+		w.Fail("c04/overlimit memory", "%s: %d bytes were allocated while reading it (cap %d): %v", desc, alloc, allocCap, err)
+		return
+	}
+	if used > d.over.limitAt+readAhead {
+		d.overOutcome = "consumed"
+		w.Fail("c04/overlimit consumed", "%s: the reader consumed %d bytes of the stream before refusing (allowed: up to the limit + %d of read-ahead): %v", desc, used, readAhead, err)
+		return
+	}
+	if isTimeout(err) {
 		d.overOutcome = "blocked"
 		w.Fail("c04/overlimit blocked", "%s: Read did not refuse it, it was still blocked %v after everything had been written: %v", desc, readWait, err)
 		return
 	}
 	d.overOutcome = "refused"
 	w.Log.Add("rd:"+d.name, "over", "refused after %d bytes", used)
-	if used > d.over.limitAt+readAhead {
-		w.Fail("c04/overlimit consumed", "%s: the reader consumed %d bytes of the stream before refusing (allowed: up to the limit + %d of read-ahead): %v", desc, used, readAhead, err)
-		return
-	}
-	if alloc > allocCap {
-		w.Fail("c04/overlimit memory", "%s: %d bytes were allocated while reading it (cap %d): %v", desc, alloc, allocCap, err)
-		return
-	}
 	w.Probe("over_limit_rejected")
 	w.Probe("over_limit_memory_checked")
 }
@@ -864,7 +867,7 @@ func (h *harness) finish() {
 	}
 	h.wireProbes()
 	h.sample = map[string]any{"mode": sc.Mode, "carrier": sc.Carrier, "plain_bytes": total,
-		"fwd": map[string]int{"elements": len(h.fwd.bs), "equal": h.fwd.nEqual, "reads": len(h.fwd.cuts), "writes": h.fwd.nWrites},
+		"fwd":  map[string]int{"elements": len(h.fwd.bs), "equal": h.fwd.nEqual, "reads": len(h.fwd.cuts), "writes": h.fwd.nWrites},
 		"back": map[string]int{"elements": len(h.back.bs), "equal": h.back.nEqual, "reads": len(h.back.cuts), "writes": h.back.nWrites}}
 	if sc.Fault != nil {
 		h.sample["fault_plain_offsets"] = append(append([]int(nil), h.fwd.targets...), h.back.targets...)
